@@ -67,7 +67,7 @@ pub fn is_valid(v: &[f64; 10]) -> bool {
     if v[Y].abs() >= 4_294_967_296.0 || v[MO].abs() >= 4_294_967_296.0 || v[W].abs() >= 4_294_967_296.0 {
         return false;
     }
-    time_total(v).abs() < MAX_TIME_NS_EXCL
+    time_total(v).unsigned_abs() < MAX_TIME_NS_EXCL as u128
 }
 
 /// BalanceTimeDuration: split an exact total into (days, h, min, s, ms, us, ns) for a largest unit
